@@ -18,7 +18,7 @@ func Run(ctx *common.Ctx) int {
 	// shapes: twoA = 2a, a an integer or half-integer in [0.5, 5000]
 	shapeSet := map[int]bool{}
 	if quick {
-		for t := 1; t <= 600; t++ {
+		for t := 1; t <= 450; t++ {
 			shapeSet[t] = true
 		}
 		// shapes the tests produce: 2^m-1 over 2, 2^(m-2), 2^(m-3), 2^(m-1), k-1, K/2, N/2 ...
